@@ -15,5 +15,6 @@ VIEW View
 INVARIANT UnequalNeverAveraged
 INVARIANT ShapeOK
 PROPERTY AppendOnly
+PROPERTY RefinesLaws
 PROPERTY FailureAtomic
 CHECK_DEADLOCK FALSE
